@@ -35,6 +35,7 @@ CONSTANTS PRs,        \* pull request numbers, a set of small naturals (all targ
           Reviews,    \* review decisions GitHub may report: APPROVED, REVIEW_REQUIRED, CHANGES_REQUESTED, API_NONE
           Labels,     \* labels people toggle: "WIP", "stacked PR", "prio:high", "do-not-test"
           ExtVals,    \* what the external required check may report: "success", "failure", "pending"
+          NotifyKinds,\* which entry points fire: "github" (webhook), "batch" (batch callback), "all" (periodic update)
           Budget      \* number of human events (pushes, reviews, labels, reports) after the arbitrary initial state
 
 VARIABLES setup,      \* TRUE until the arbitrary initial GitHub state has been chosen
@@ -58,6 +59,7 @@ histVars == <<seenT, seenLab, seenSt, used, nmerged, bad>>
 DNM == {"WIP", "stacked PR"}          \* github.py DO_NOT_MERGE
 Ctx == {"ci", "ext"}                  \* CI's own status context (GITHUB_STATUS_CONTEXT) and one external required check
 MAXRUN == 3                           \* MAX_CONCURRENT_PR_BATCHES
+BatchIds == 1..(Cardinality(PRs) * MaxC * (MaxPush + Cardinality(PRs) + 1) + 4)   \* a constant bound for the quantifier only
 
 P(k, n) == [k |-> k, n |-> n]
 DefPR == [src |-> 0, lab |-> {}, rev |-> "none", lks |-> [x \in Ctx |-> "absent"],
@@ -333,8 +335,8 @@ Env == \/ \E rv \in [PRs -> Reviews], lb \in [PRs -> SUBSET Labels] : Setup(rv, 
        \/ \E n \in PRs : PushPR(n) \/ (\E r \in Reviews : Review(n, r)) \/ (\E l \in Labels : Label(n, l))
                          \/ (\E v \in ExtVals : Report(n, v))
        \/ PushTarget
-       \/ \E b \in 1..Len(batches), ok \in BOOLEAN : BatchDone(b, ok)
-       \/ \E kind \in {"github", "batch", "all"} : Notify(kind)
+       \/ \E b \in BatchIds, ok \in BOOLEAN : BatchDone(b, ok)
+       \/ \E kind \in NotifyKinds : Notify(kind)
 
 CI == \/ FetchBranch \/ FetchPRs \/ Orphans
       \/ \E n \in PRs : FetchStatus(n) \/ UpdateBatch(n) \/ PostStatus(n) \/ StartBuild(n) \/ MergeOk(n) \/ MergeRefused(n)
